@@ -45,7 +45,7 @@ CHECKS = {
         ref="2 C06",
     ),
     "C08": dict(
-        technique="property-based testing: Hypothesis code bases with generated command histories; metamorphic relations (union of fresh single-command analyses, projection, permutation)",
+        technique="property-based testing: Hypothesis code bases with generated command histories (incl. a stateful rule-based machine that grows the history step by step); metamorphic relations (union of fresh single-command analyses, projection, permutation)",
         text="Generated-input search over code bases with macro-carrying shared headers and 1-4 platforms x 1-4 commands: the full analysis must equal the union of fresh single-command analyses, any platform subset must give the projection (also through codebasin -p / cbi-tree -p), and permuting commands/platforms must not change any line's platform set. Bounded exploration of histories (command sequences up to 16).",
         note="Relations over the implementation itself; the harness resets the process-wide compiler cache before each analysis.",
         ref="2 C08",
